@@ -17,9 +17,10 @@ class CompactRun(IndexRun):
         self.mined = set()
         self.overflow = False
         self.overflow_at = None      # number of steps recorded when the run left the claim (everything before is judged)
-        # the three scripts whose histories grow sit in the first prefix, in the one right after it (so that a batch
-        # ends exactly before a populated prefix) and in the very last prefix
-        self.hashx_prefix = {bytes(SCRIPTS[4]): b'\x00\x00', bytes(SCRIPTS[2]): b'\x00\x01', bytes(SCRIPTS[3]): b'\xff\xff'}
+        # the scripts whose histories grow: two share the first prefix, one sits in the prefix right after it (so that a
+        # batch ends exactly before a populated prefix), one in the very last prefix
+        self.hashx_prefix = {bytes(SCRIPTS[4]): b'\x00\x00', bytes(SCRIPTS[2]): b'\x00\x00', bytes(SCRIPTS[3]): b'\x00\x01',
+                             bytes(SCRIPTS[1]): b'\xff\xff'}
 
     # ---- helpers
     def next_slots(self):
